@@ -404,6 +404,29 @@ def register(gen, T):
                    T.lean_list(f"({lean_str(k)}, {'true' if normws(fn_body(gen_rs, k)) == v else 'false'})" for k, v in pins.items()) + "\n"
                    "def helperBodiesAsModelled : Bool := helperBodies.all (fun p => p.2)\n\n")
 
+        # ---------------------------------------------------------------- prototypes: FunctionDeclaration arm, only_declare
+        rd = normws(fn_body(gen_rs, "generate_root_definition"))
+        fi = normws(fn_body(gen_rs, "generate_function_inner"))
+        gf = normws(fn_body(gen_rs, "generate_function"))
+        decl_arm = ("ir::RootDefinition::FunctionDeclaration(id) => generate_function(*id, true, context)? .into_iter() "
+                    ".map(ast::RootDefinition::Function) .collect::<Vec<_>>(),")
+        def_arm = ("ir::RootDefinition::Function(id) => generate_function(*id, false, context)? .into_iter() "
+                   ".map(ast::RootDefinition::Function) .collect::<Vec<_>>(),")
+        body_sel = ("let body = if only_declare { None } else { let mut statements = Vec::new(); for statement in &decl.scope_block.0 { "
+                    "statements.push(generate_statement(statement, context)?); } Some(statements) };")
+        no_impl = "{ Some(decl) => decl, None => return Err(GenerateError::FunctionNotDefined), };"
+        params_loop = "let mut params = Vec::new(); for param in &decl.params { params.push(generate_function_param(param, context, for_pixel_entry)?); }"
+        decl_ok = (rd.count(decl_arm) == 1 and rd.count(def_arm) == 1 and rd.count("generate_function(") == 2
+                   # only_declare selects the body and nothing else; a prototype is printed from the implementation as well
+                   and fi.count(body_sel) == 1 and fi.count("only_declare") == 1 and fi.count(no_impl) == 1 and fi.count(params_loop) == 1
+                   # generate_function hands the flag through unchanged (plain function and every template instantiation)
+                   and gf.count("generate_function_inner(id, only_declare, context)?") == 1
+                   and gf.count("generate_function_inner(child_id, only_declare, context)?") == 1 and gf.count("only_declare") == 2)
+        out.append("/-- generate_root_definition: a `FunctionDeclaration(id)` is `generate_function(id, only_declare = true)`, a `Function(id)` the\n"
+                   "same with `false`; in generate_function_inner the flag only selects `body = None` (name, return type and parameters\n"
+                   "are those of the implementation in both cases; no implementation = `Err(FunctionNotDefined)`) -/\n"
+                   f"def declarationArmsAsModelled : Bool := {'true' if decl_ok else 'false'}\n\n")
+
         # ---------------------------------------------------------------- generate_scalar_type
         sbody = fn_body(gen_rs, "generate_scalar_type")
         _, sarms, _ = first_match(sbody, r'^ty$')
